@@ -29,7 +29,8 @@ func c08(c *eng.Ctx, r *eng.Report) {
 		"R8.13 no function of the package hands out or stores the address of an element of a slice field that the package also appends to (the pointer goes stale when the slice grows — list headers are written through such pointers); " +
 		"R8.14 what EncodeToBytes hands out is the caller's own: encbuf.toBytes returns a slice it allocated on every path, never (a re-slice of) a field of the pooled encbuf, which the next encoding overwrites; " +
 		"R8.18 a decoded byte string owns its bytes: every non-nil slice (*Stream).Bytes returns is allocated in that call (make, or a fresh literal) — never a window on the Stream's scratch buffer, which the next single-byte value overwrites and readUint zeroes, so that c3010203 decodes to [03 03 03]; " +
-		"R8.19 a tail slice is written without a list of its own: in the slice writer every piece of list framing (the encbuf.list() that opens one, a literal 0xC0) sits under the test that the field is not a tail — an empty `rlp:\"tail\"` slice otherwise adds an element (c50782aabbc0 for c40782aabb) that the decoder rejects or returns as an extra entry; " +
+		"R8.20 the codec of a recursive type is the one its own closures captured: cachedTypeInfo1 puts a placeholder into the type cache before it generates the codec and afterwards fills that placeholder in place — no second map update replaces the pointer the generated closures hold, or a type that refers to itself (struct{V uint64; Kids []*T}) keeps nil writer and decoder behind its self-reference and EncodeToBytes/DecodeBytes panic on the 5 bytes c4 07 c2 c1 05; " +
+		"R8.18 a tail slice is written without a list of its own: in the slice writer every piece of list framing (the encbuf.list() that opens one, a literal 0xC0) sits under the test that the field is not a tail — an empty `rlp:\"tail\"` slice otherwise adds an element (c50782aabbc0 for c40782aabb) that the decoder rejects or returns as an extra entry; " +
 		"R8.17 what a decode returns depends on its input alone: the rlp functions reachable from Decode, DecodeBytes and (*Stream).Decode keep no state between calls other than the reviewed per-type codec table — no pool of Streams, no package-level scratch (a pooled Stream that is not reset completely starts the next decode inside the list a failed one left open: a valid encoding is rejected with `rlp: end of list`); " +
 		"R8.15 readUint converts its 8-byte scratch buffer as a whole, so every byte of it is written in that call: the unused high-order bytes are zeroed before the value bytes are read (the buffer lives as long as the Stream; a narrower integer after a wider one must not inherit its high bytes); " +
 		"R8.16 a nil pointer is written as the empty form of what it points to — 0x80 for a byte array, 0xC0 for other arrays, structs and slices: makePtrWriter tests the element type of the pointed-to array (typ.Elem().Elem()), the decoder's `rlp:\"nil\"` rule accepts exactly that; " +
@@ -54,6 +55,7 @@ func c08(c *eng.Ctx, r *eng.Report) {
 	c08DecoderPure(c, r)
 	c08BytesOwnMemory(c, r)
 	c08TailHasNoHeader(c, r)
+	c08PlaceholderFilledInPlace(c, r)
 }
 
 // payloadExempt: functions that pull bytes from the input without being the
@@ -1190,4 +1192,38 @@ func c08TailHasNoHeader(c *eng.Ctx, r *eng.Report) {
 		}
 	}
 	r.Check(bad == "" && n >= 1, rule, "slice-writer:tail-unframed", c.Pos(mk.Pos()), fmt.Sprintf("%d piece(s) of list framing, each under !tail", n), "the slice writer emits list framing ("+bad+") without having tested that the field is not a tail: a struct whose `rlp:\"tail\"` slice is empty at encode time gets an extra empty-list element — {A; B; Tail} encodes as c50782aabbc0 instead of c40782aabb, which DecodeBytes rejects for a []uint64 tail and returns with one extra element for a []RawValue tail")
+}
+
+// c08PlaceholderFilledInPlace: see R8.20.
+func c08PlaceholderFilledInPlace(c *eng.Ctx, r *eng.Report) {
+	const rule = "R8.20"
+	r.Min(rule, 1)
+	fn := c.Func(rlpPkg, "cachedTypeInfo1")
+	if !r.Anchor(fn != nil, rule, "rlp.cachedTypeInfo1") {
+		return
+	}
+	var gen ssa.Instruction
+	for _, s := range eng.Sites(fn) {
+		if strings.HasSuffix(s.Name(), "rlp.genTypeInfo") {
+			gen = s.Instr
+		}
+	}
+	if !r.Anchor(gen != nil, rule, "cachedTypeInfo1: genTypeInfo call") {
+		return
+	}
+	before, after := 0, ""
+	for _, b := range fn.Blocks {
+		for _, in := range b.Instrs {
+			mu, ok := in.(*ssa.MapUpdate)
+			if !ok || !strings.Contains(eng.Desc(mu.Map), "typeCache") {
+				continue
+			}
+			if eng.Reaches(gen, in) {
+				after = c.Pos(in.Pos())
+			} else {
+				before++
+			}
+		}
+	}
+	r.Check(before >= 1 && after == "", rule, "typecache:placeholder-in-place", c.Pos(fn.Pos()), "one placeholder entry before the codec is generated, none replaces it afterwards", "cachedTypeInfo1 replaces the cache entry after the codec was generated (map update at "+after+"): the closures generated for a self-referential type captured the placeholder pointer, which now stays empty — encoding or decoding such a type panics with a nil dereference as soon as the recursive field is reached")
 }
